@@ -334,7 +334,7 @@ func runCors(raw Sx) (Sx, Sx) {
 		c3.Dispatch(rec4, q.HTTP())
 		freshEq := rec1.Code == rec4.Code && rec1.Body.String() == rec4.Body.String() && len(pr1.invoked) == len(pr3.invoked) &&
 			SxString(headerSx(rec1.Header(), all)) == SxString(headerSx(rec4.Header(), all))
-		obs = append(obs, L(acl, B(len(pr1.invoked) > 0), B(twin), probeStatus, B(freshEq)))
+		obs = append(obs, L(acl, len(pr1.invoked), B(twin), probeStatus, B(freshEq))) // (second field: how often the route function ran)
 		o.Lower(q.Get("Origin"))
 		for _, h := range strings.Split(q.Get("Access-Control-Request-Headers"), ",") {
 			o.Lower(strings.Trim(h, " "))
